@@ -2,7 +2,8 @@
    PARTIAL: iteration order of real set objects, state cached on live objects, the two UFO libraries
    and the disk round trip are runtime behaviour; observed by the check (byte comparison across
    interpreter hash seeds, call histories, libraries, reloads). *)
-From U2F Require Import Base.Prelude Heap.CopyDiscipline Heap.CopyDisciplineProofs Heap.Determinism.
+From Coq Require Import List Permutation.
+From U2F Require Import Base.Prelude Heap.CopyDiscipline Heap.CopyDisciplineProofs Heap.Determinism Mark.Color Mark.ColorProofs.
 
 Theorem C08_sorted_serialisation_is_hash_seed_independent : forall l l' : list str,
   Permutation l l' -> sort_str l = sort_str l'.
@@ -24,3 +25,13 @@ Theorem C08_refuted_by_a_direct_writer :
   exists (compile : list (nat * Z) -> Z) h, compile (h_src (direct_write h 0 0%Z)) <> compile (h_src h).
 Proof. exact second_call_differs_after_direct_write. Qed.
 Print Assumptions C08_refuted_by_a_direct_writer.
+
+(* a concrete instance of (a): the mark-class grouping (colorGraph) visits the vertices in sorted order and looks at
+   neighbour SETS only, so two enumerations of the same conflict graph -- dict keys in another order, every neighbour
+   set in another order, as another PYTHONHASHSEED produces them -- give the same groups, member for member *)
+Theorem C08_mark_class_grouping_is_enumeration_independent : forall adj adj',
+  Permutation (keys adj) (keys adj') ->
+  (forall v x, In x (nbrs adj v) <-> In x (nbrs adj' v)) ->
+  color_graph adj = color_graph adj'.
+Proof. exact color_graph_enumeration_independent. Qed.
+Print Assumptions C08_mark_class_grouping_is_enumeration_independent.
